@@ -202,7 +202,7 @@ func classify(ctx *hx.Ctx, id int, c *Case, res *Result, feats []string) {
 	ti := analyse(res.ents)
 	badChunkOps := false
 	for _, m := range c.Ops {
-		if m.Op == "gap" || m.Op == "swapchunks" {
+		if m.Op == "gap" || m.Op == "swapchunks" || m.Op == "chunkfirst" {
 			badChunkOps = true
 		}
 	}
@@ -220,7 +220,7 @@ func classify(ctx *hx.Ctx, id int, c *Case, res *Result, feats []string) {
 	}
 	badChunks := false
 	for _, m := range c.Ops {
-		if m.Op == "gap" || m.Op == "swapchunks" {
+		if m.Op == "gap" || m.Op == "swapchunks" || m.Op == "chunkfirst" {
 			badChunks = true
 		}
 	}
@@ -237,7 +237,7 @@ func classify(ctx *hx.Ctx, id int, c *Case, res *Result, feats []string) {
 			switch {
 			case memOK && !dbOK && c.NullEntries && len(res.ents) == 0:
 				ctx.Finding(id, sigNull, "TOC with \"entries\":null (writer output for an empty tar): memory accepts, db rejects", d)
-			case memOK && !dbOK && ti.chunkFirst && !ti.forwardHardlink:
+			case memOK && !dbOK && ti.chunkFirst: // db fails at entry 0, whatever follows
 				ctx.Finding(id, sigChunkFirst, "TOC starting with a chunk entry: memory accepts, db rejects", d)
 			case memOK && !dbOK && ti.forwardHardlink && !ti.chunkFirst && !ti.missingLink:
 				ctx.Finding(id, sigForward, "hardlink entry placed before its target: memory accepts, db rejects", d)
